@@ -206,3 +206,117 @@ pub fn expect_name(e: &Expect) -> &'static str {
         Expect::NoneOrFallback => "none-or-fallback",
     }
 }
+
+// ------------------------------------------------------------------------------------------
+// method-level generator shared by C06, C07, C08: a triple biased towards the CLDR entries,
+// dressed with variants and an extension string, built through Locale::from_parts
+
+use crate::gen;
+use crate::values::{self, Parts};
+use proptest::prelude::*;
+use proptest::strategy::SBoxedStrategy;
+
+pub const DRESS_VARIANTS: &[&str] = &["valencia", "1abc", "macos", "1901", "1996", "abcde"];
+
+#[derive(Clone, Debug)]
+pub struct Dressed {
+    pub kind: u8,
+    pub pick: u32,
+    pub l: u16,
+    pub s: u16,
+    pub r: u16,
+    pub mask: u8,
+    pub variants: Vec<String>,
+    pub ext: Option<gen::Ast>,
+}
+
+pub fn s_dressed(h: &Handles) -> SBoxedStrategy<Dressed> {
+    let (nl, ns, nr) = h.dims();
+    (
+        0u8..10,
+        any::<u32>(),
+        0..nl as u16,
+        0..ns as u16,
+        0..nr as u16,
+        0u8..8,
+        proptest::collection::vec(proptest::sample::select(DRESS_VARIANTS.to_vec()).prop_map(|s| s.to_string()), 0..=3),
+        proptest::option::weighted(0.6, gen::s_ast()),
+    )
+        .prop_map(|(kind, pick, l, s, r, mask, variants, ext)| Dressed { kind, pick, l, s, r, mask, variants, ext })
+        .sboxed()
+}
+
+impl Handles {
+    /// the triple a generated `Dressed` denotes: 0-3 a CLDR key (optionally with one more
+    /// component), 4-6 a CLDR value with components dropped by `mask`, 7-9 free
+    pub fn dressed_triple(&self, d: &Dressed) -> Triple {
+        let n = self.lk.by_key.len() as u64;
+        let idx = ((d.pick as u64 * n) >> 32) as usize;
+        match d.kind {
+            0..=2 => self.lk.by_key[idx].0,
+            3 => {
+                let mut t = self.lk.by_key[idx].0;
+                match d.mask % 3 {
+                    0 if t.l == 0 => t.l = d.l,
+                    1 if t.s == 0 => t.s = d.s,
+                    _ if t.r == 0 => t.r = d.r,
+                    _ => {}
+                }
+                t
+            }
+            4..=6 => {
+                let mut t = self.lk.by_key[idx].1;
+                if d.mask & 1 != 0 {
+                    t.l = 0;
+                }
+                if d.mask & 2 != 0 {
+                    t.s = 0;
+                }
+                if d.mask & 4 != 0 {
+                    t.r = 0;
+                }
+                t
+            }
+            _ => Triple { l: d.l, s: if d.mask & 2 != 0 { 0 } else { d.s }, r: if d.mask & 4 != 0 { 0 } else { d.r } },
+        }
+    }
+    pub fn dressed_parts(&self, d: &Dressed) -> Parts {
+        let t = self.dressed_triple(d);
+        let opt = |s: &String| if s.is_empty() { None } else { Some(s.clone()) };
+        Parts {
+            lang: self.lk.uni.langs[t.l as usize].clone(),
+            script: opt(&self.lk.uni.scripts[t.s as usize]),
+            region: opt(&self.lk.uni.regions[t.r as usize]),
+            variants: d.variants.clone(),
+            ext: d.ext.as_ref().and_then(|a| values::ext_string(a, false)),
+        }
+    }
+    pub fn triple_of_parts(&self, p: &Parts) -> Option<Triple> {
+        let l = self.lk.uni.langs.iter().position(|x| x.eq_ignore_ascii_case(&p.lang))?;
+        let s = match &p.script {
+            None => 0,
+            Some(s) => self.lk.uni.scripts.iter().position(|x| x.eq_ignore_ascii_case(s))?,
+        };
+        let r = match &p.region {
+            None => 0,
+            Some(s) => self.lk.uni.regions.iter().position(|x| x.eq_ignore_ascii_case(s))?,
+        };
+        Some(Triple { l: l as u16, s: s as u16, r: r as u16 })
+    }
+}
+
+pub fn lib_triple(li: &unic_langid::LanguageIdentifier) -> Lib {
+    (li.language, li.script, li.region)
+}
+
+pub fn load_or_error(cfg: &Cfg) -> Result<Handles, Stats> {
+    Handles::load(cfg).map_err(|e| {
+        let mut st = Stats::new();
+        st.oracle_error(format!("cannot build the triple universe: {e}"));
+        st
+    })
+}
+
+pub fn replay_cfg(prop: &str) -> Cfg {
+    Cfg { prop: prop.into(), tier: Tier::Quick, seed: 0, verif: std::env::var("VERIF_DIR").unwrap_or("/verif".into()).into(), repo: std::env::var("VERIF_REPO").unwrap_or("/repo".into()).into(), start: std::time::Instant::now() }
+}
